@@ -1085,6 +1085,7 @@ func main() {
 	sb.WriteString("]\nend BB.Gen.Skel\n")
 	os.MkdirAll(out, 0o755)
 	writeIfChanged(filepath.Join(out, "Access.lean"), x.accessTable())
+	writeIfChanged(filepath.Join(out, "Captured.lean"), x.capturedTable(files))
 	writeIfChanged(filepath.Join(out, "Consts.lean"), cb.String())
 	writeIfChanged(filepath.Join(out, "Skel.lean"), sb.String())
 	fmt.Printf("extract: %d graphs, %d symbols\n", len(x.graphs), len(symsSorted))
@@ -1539,3 +1540,155 @@ func (x *extractor) accessTable() string {
 }
 
 func (e event) callDeferredAsync() bool { return false }
+
+
+// ------------------------------------------------------------------------------------------------
+// captured variables: a function literal handed to `go`, context.AfterFunc or time.AfterFunc runs on another
+// goroutine; every variable of the enclosing function that it refers to and that the enclosing function assigns
+// textually after the launch (or anywhere inside a loop that contains the launch) is listed.
+func (x *extractor) capturedTable(files []*ast.File) string {
+	type rec struct{ fn, v, lit string }
+	var recs []rec
+	for _, f := range files {
+		for _, d := range f.Decls {
+			fd, ok := d.(*ast.FuncDecl)
+			if !ok || fd.Body == nil {
+				continue
+			}
+			fname := fd.Name.Name
+			if fd.Recv != nil && len(fd.Recv.List) > 0 {
+				t := fd.Recv.List[0].Type
+				if s, ok := t.(*ast.StarExpr); ok {
+					t = s.X
+				}
+				if ie, ok := t.(*ast.IndexListExpr); ok {
+					t = ie.X
+				}
+				if ie, ok := t.(*ast.IndexExpr); ok {
+					t = ie.X
+				}
+				if id, ok := t.(*ast.Ident); ok {
+					fname = id.Name + "." + fname
+				}
+			}
+			// launches: (literal, position, enclosing loops)
+			type launch struct {
+				lit   *ast.FuncLit
+				pos   token.Pos
+				loops []ast.Node
+			}
+			var launches []launch
+			var loops []ast.Node
+			var walk func(n ast.Node)
+			asyncLit := func(c *ast.CallExpr) *ast.FuncLit {
+				se, ok := c.Fun.(*ast.SelectorExpr)
+				if !ok || se.Sel.Name != "AfterFunc" {
+					return nil
+				}
+				for _, a := range c.Args {
+					if l, ok := a.(*ast.FuncLit); ok {
+						return l
+					}
+				}
+				return nil
+			}
+			walk = func(n ast.Node) {
+				ast.Inspect(n, func(m ast.Node) bool {
+					switch v := m.(type) {
+					case *ast.ForStmt, *ast.RangeStmt:
+						if m != n {
+							loops = append(loops, m)
+							walk(m)
+							loops = loops[:len(loops)-1]
+							return false
+						}
+					case *ast.GoStmt:
+						if l, ok := v.Call.Fun.(*ast.FuncLit); ok {
+							launches = append(launches, launch{l, v.Pos(), append([]ast.Node(nil), loops...)})
+						}
+					case *ast.CallExpr:
+						if l := asyncLit(v); l != nil {
+							launches = append(launches, launch{l, v.Pos(), append([]ast.Node(nil), loops...)})
+						}
+					}
+					return true
+				})
+			}
+			walk(fd.Body)
+			for _, la := range launches {
+				captured := map[types.Object]bool{}
+				ast.Inspect(la.lit, func(m ast.Node) bool {
+					if id, ok := m.(*ast.Ident); ok {
+						if o, ok := x.info.Uses[id].(*types.Var); ok && !o.IsField() && o.Pkg() == x.pkg &&
+							o.Pos() >= fd.Pos() && o.Pos() < fd.End() && !(o.Pos() >= la.lit.Pos() && o.Pos() < la.lit.End()) {
+							captured[o] = true
+						}
+					}
+					return true
+				})
+				written := map[types.Object]bool{}
+				note := func(e ast.Expr, at token.Pos) {
+					id, ok := e.(*ast.Ident)
+					if !ok {
+						return
+					}
+					o := x.info.Uses[id]
+					if o == nil {
+						o = x.info.Defs[id]
+					}
+					if o == nil || !captured[o] {
+						return
+					}
+					if at >= la.lit.Pos() && at < la.lit.End() {
+						return // the literal's own writes
+					}
+					after := at > la.lit.End()
+					for _, lp := range la.loops {
+						if at >= lp.Pos() && at < lp.End() {
+							after = true
+						}
+					}
+					if after {
+						written[o] = true
+					}
+				}
+				ast.Inspect(fd.Body, func(m ast.Node) bool {
+					switch v := m.(type) {
+					case *ast.AssignStmt:
+						if v.Tok != token.DEFINE {
+							for _, l := range v.Lhs {
+								note(l, v.Pos())
+							}
+						}
+					case *ast.IncDecStmt:
+						note(v.X, v.Pos())
+					}
+					return true
+				})
+				for o := range written {
+					recs = append(recs, rec{fname, fname + "." + o.Name(), x.litName[la.lit]})
+				}
+			}
+		}
+	}
+	sort.Slice(recs, func(i, j int) bool {
+		if recs[i].fn != recs[j].fn {
+			return recs[i].fn < recs[j].fn
+		}
+		if recs[i].v != recs[j].v {
+			return recs[i].v < recs[j].v
+		}
+		return recs[i].lit < recs[j].lit
+	})
+	var sb strings.Builder
+	sb.WriteString("/- GENERATED by /verif/go/cmd/extract from /repo — do not edit.\n   (function, variable, literal): the function assigns the variable after (or in a loop around) the point where it\n   hands the literal, which refers to the variable, to `go` / AfterFunc. -/\nnamespace BB.Gen.Captured\n\ndef writesAfterLaunch : List (String × String × String) := [\n")
+	for i, r := range recs {
+		sep := ","
+		if i == len(recs)-1 {
+			sep = ""
+		}
+		fmt.Fprintf(&sb, "  (%q, %q, %q)%s\n", r.fn, r.v, r.lit, sep)
+	}
+	sb.WriteString("]\n\nend BB.Gen.Captured\n")
+	return sb.String()
+}
